@@ -1089,9 +1089,9 @@ fn main() {
         all_cfgs.iter().copied().filter(|i| *i >= 24 || i % 3 == 0).collect()
     };
     let pair_shapes: Vec<&'static str> = if quick {
-        vec!["q1", "q5", "cname1+q5", "q2+ns7+glue1", "mx2", "neg1-full", "neg3", "err-timeout"]
+        vec!["q1", "cname1+q5", "q2+ns7+glue1", "q5+auq1", "neg1-full", "err-timeout"]
     } else {
-        vec!["q0", "q1", "q5", "q1+q5", "cname1+q5", "cname5+q2", "q2+ns7+glue1", "mx2", "neg-none", "neg1-full", "neg3", "err-timeout", "err-servfail"]
+        vec!["q0", "q1", "q5", "q1+q5", "cname1+q5", "cname5+q2", "q2+ns7+glue1", "q5+auq1", "mx2", "neg-none", "neg1-full", "neg3", "err-timeout"]
     };
     let st = run(
         GridSpec {
